@@ -115,6 +115,12 @@ where
         if (step > zero && covered < span) || (step < zero && covered > span) {
             steps += T::one();
         }
+        // a float quotient that rounds up past an integer counts one step too many:
+        // the last element must still lie strictly before `b`
+        let last = a + (steps - T::one()) * step;
+        if (step > zero && last >= b) || (step < zero && last <= b) {
+            steps = steps - T::one();
+        }
         steps.cast()
     } else {
         0
